@@ -13,7 +13,8 @@
               pv = (0 pyval) | (1 (pv ...)) list | (2 ((key pv) ...)) dict in order
      row      (((key val) ...) vals)  for every name of schema.properties in order: nav.name(name).value();
               vals = (0 (pv ...)) | (1 exn) = Row.values()
-     neg      ((path obs) ...)   nav(path).index(-1): obs = (0 start end) | (1 exn)   (own stream only)
+     neg      ((path obs z) ...) nav(path).index(z) with z < 0: obs = (0 start end) | (1 exn)   (own stream only);
+                                 the property demands IndexError, the model is index_start_z
      cut      number of bytes the record is short of its extent (stream truncated; absent or 0 otherwise) *)
 From Coq Require Import ZArith NArith List Bool.
 Import ListNotations.
@@ -211,7 +212,8 @@ Definition judge (c : sx) : sx :=
            end
        end in
   let good_row := sx_eqb rowvals (seq_obs tops) in
-  let good_neg := forallb (fun po => is_err (nth_sx 1 po) 3) negs in
+  (* a negative index is refused with IndexError, whatever the table *)
+  let good_neg := forallb (fun po => (as_Z (nth_sx 2 po) <? 0) && is_err (nth_sx 1 po) 3) negs in
   let good := forallb good_path paths && good_row && good_neg && is_val top in
   (* ------------------------------------------------------------ correspondence with the model *)
   let agree_path (po : sx) : bool :=
@@ -269,7 +271,7 @@ Definition judge (c : sx) : sx :=
     | Ok v0 =>
         match vnav_path dcount r v0 (wpath_of (nth_sx 0 po)) with
         | Ok v =>
-            match index_start_z v (-1) with
+            match index_start_z v (as_Z (nth_sx 2 po)) with
             | Ok z => is_val o && (as_Z (nth_sx 1 o) =? z)
             | Err ex => is_err o (exn_code ex)
             end
@@ -293,11 +295,7 @@ Definition judge (c : sx) : sx :=
                            | Ok v => foot_inside v | Err _ => true end) paths
     | Err _ => true
     end in
-  let known :=
-    match negs with
-    | _ :: _ => Some 2
-    | [] => if odo_in_table t then Some 1 else None
-    end in
+  let known := if odo_in_table t then Some 1 else None in
   let some_bad := existsb (fun po => is_val (nth_sx 1 po) && negb (is_val (nth_sx 4 (nth_sx 1 po)))) paths in
   let branch := 1 + (if has_odo t then 1 else 0) + (if has_redef t then 2 else 0) + (if has_table t then 4 else 0)
                 + (if some_bad then 8 else 0) in
